@@ -435,6 +435,19 @@ func main() {
 				emit("kick pvp 1 e", guard(func() string { return w.kick("pvp", true, "e") }))
 				emit("kick lobby 1 d", guard(func() string { return w.kick("lobby", true, "d") }))
 			}},
+		// connected to lobby, a switch to hub still in flight, lobby kicks: hub must not be the fallback
+		{scenario{vhost: "play.example.com:25565", try: []string{"lobby", "hub", "pvp"}, registered: []string{"lobby", "hub", "pvp"}},
+			func(w *world, emit func(op, out string)) {
+				emit("conn lobby", guard(func() string { w.pl.SetConnected(w.reg["lobby"]); return "ok" }))
+				emit("infl hub", guard(func() string { w.pl.SetInFlight(w.reg["hub"]); return "ok" }))
+				emit("kick lobby 1 d", guard(func() string { return w.kick("lobby", true, "d") }))
+			}},
+		{scenario{vhost: "play.example.com:25565", try: []string{"lobby", "hub"}, registered: []string{"lobby", "hub"}},
+			func(w *world, emit func(op, out string)) {
+				emit("conn lobby", guard(func() string { w.pl.SetConnected(w.reg["lobby"]); return "ok" }))
+				emit("infl hub", guard(func() string { w.pl.SetInFlight(w.reg["hub"]); return "ok" }))
+				emit("kick lobby 1 e", guard(func() string { return w.kick("lobby", true, "e") }))
+			}},
 		{scenario{vhost: "play.example.com:25565", try: []string{"lobby"}, registered: []string{"lobby"}},
 			func(w *world, emit func(op, out string)) {
 				emit("conn lobby", guard(func() string { w.pl.SetConnected(w.reg["lobby"]); return "ok" }))
@@ -472,6 +485,24 @@ func main() {
 			class = "world-exactcase"
 		}
 		runScenario(run, class, s, randomScript(r, s, 1+r.Intn(7)))
+	}
+	// ---- probe: a switch is in flight when the current server kicks (or its connection errors)
+	np := run.Scale(150, 1500)
+	for i := 0; i < np; i++ {
+		s := genScenario(r, r.Chance(2, 3))
+		if len(s.registered) < 2 {
+			continue
+		}
+		cur, fl := hx.Pick(r, s.registered), hx.Pick(r, s.registered)
+		mode := hx.Pick(r, []string{"e", "d"})
+		runScenario(run, "probe-inflight", s, func(w *world, emit func(op, out string)) {
+			if r.Bool() {
+				emit("next -", guard(func() string { return w.next("-") }))
+			}
+			emit("conn "+cur, guard(func() string { w.pl.SetConnected(w.reg[cur]); return "ok" }))
+			emit("infl "+fl, guard(func() string { w.pl.SetInFlight(w.reg[fl]); return "ok" }))
+			emit(fmt.Sprintf("kick %s 1 %s", cur, mode), guard(func() string { return w.kick(cur, true, mode) }))
+		})
 	}
 	run.Finish()
 }
